@@ -29,11 +29,16 @@ def hasCtl (b : Bytes) : Bool := b.any (fun c => c == 13 || c == 10 || c == 0)
 def validatePartBytes (b : Bytes) : Except PyErr Bytes :=
   if hasCtl (Bytes.strip b) then .error .valueError else .ok (Bytes.strip b)
 
-/-- `name[0] == b":"[0]` then `validate_header_part(name)` -/
+/-- the name as it would be sent must be neither empty nor a pseudo header: `validated_name[:1] in {b"", b":"}` -/
+def nameRefused (n : Bytes) : Bool := match n with | [] => true | c :: _ => c == 58
+
+/-- `validated_name = validate_header_part(name)`, then the pseudo / empty test on the stripped name -/
 def validateName : HV → Except PyErr Bytes
-  | .bytes [] => .error .indexError
-  | .bytes (c :: t) => if c = 58 then .error .valueError else validatePartBytes (c :: t)
-  | .str s => if s = "" then .error .indexError else .error .typeError
+  | .bytes b =>
+    match validatePartBytes b with
+    | .error e => .error e
+    | .ok n => if nameRefused n then .error .valueError else .ok n
+  | .str _ => .error .typeError
   | .int _ => .error .typeError
   | .none => .error .typeError
 
